@@ -76,7 +76,21 @@ pub fn compute_signature(hex_encoded_key: &str, input_to_sign: &[u8]) -> Result<
 }
 
 // replace xml escape characters
+// characters that XML 1.0 cannot carry in any form (outside the Char production
+// #x9 | #xA | #xD | [#x20-#xD7FF] | [#xE000-#xFFFD] | [#x10000-#x10FFFF]) are replaced with U+FFFD first
 pub fn xml_escape(s: String) -> String {
+    let s: String = s
+        .chars()
+        .map(|c| match c {
+            '\u{9}'
+            | '\u{A}'
+            | '\u{D}'
+            | '\u{20}'..='\u{D7FF}'
+            | '\u{E000}'..='\u{FFFD}'
+            | '\u{10000}'..='\u{10FFFF}' => c,
+            _ => '\u{FFFD}',
+        })
+        .collect();
     s.replace('&', "&amp;")
         .replace('\'', "&apos;")
         .replace('"', "&quot;")
